@@ -120,7 +120,7 @@ def step_runner(unit):
     return rc == 0, out + out2
 
 
-def step_harness(unit, timeout=1500):
+def step_harness(unit, timeout=int(os.environ.get("VERIF_BUILD_TIMEOUT", "1500"))):
     lock = VERIF + "/harness/Cargo.lock"
     if not os.path.exists(lock) or open(lock).read() != open(REPO + "/Cargo.lock").read():
         shutil.copy(REPO + "/Cargo.lock", lock)
